@@ -92,6 +92,24 @@ fn main() {
             };
             dispatch!(id, do_digests, tier, n, jobs)
         }
+        Some("dump-bcf") => {
+            // debugging aid: encodes a VCF file as raw BCF and prints the per-record FORMAT blocks
+            let vcf = std::fs::read(&args[2]).expect("vcf file");
+            match gen::vcf_to_bcf(&vcf) {
+                Ok(raw) => {
+                    for o in gen::bcf_record_offsets(&raw) {
+                        let ls = u32::from_le_bytes([raw[o], raw[o + 1], raw[o + 2], raw[o + 3]]) as usize;
+                        let li = u32::from_le_bytes([raw[o + 4], raw[o + 5], raw[o + 6], raw[o + 7]]) as usize;
+                        println!("{}", gen::hex(&raw[o + 8 + ls..o + 8 + ls + li]));
+                    }
+                    0
+                }
+                Err(e) => {
+                    eprintln!("{e}");
+                    2
+                }
+            }
+        }
         _ => {
             eprintln!("usage: simctl check <ID> quick|thorough | replay <file> | digests <ID> <n> <jobs>");
             2
